@@ -754,7 +754,14 @@ func (e *Engine) decidePegViolations(pa *pegAnalysis, obls []*Obligation, pathOf
 		inputs = append(inputs, g.candidatesFor(pathOf(o))...)
 	}
 	inputs = uniq(inputs)
-	sort.SliceStable(inputs, func(i, j int) bool { return len(inputs[i]) < len(inputs[j]) })
+	// (length, text) order: the shards see ascending inputs, so the shortest, lexicographically first witness of
+	// every element is found whatever the scheduling — known findings record exactly that input
+	sort.SliceStable(inputs, func(i, j int) bool {
+		if len(inputs[i]) != len(inputs[j]) {
+			return len(inputs[i]) < len(inputs[j])
+		}
+		return inputs[i] < inputs[j]
+	})
 	res, err := e.runPegHarness(inputs)
 	if d := os.Getenv("DSVC_PEG_DEBUG"); d != "" && res != nil {
 		os.WriteFile(d, []byte(res.Raw), 0o644)
@@ -784,7 +791,12 @@ func (e *Engine) decidePegViolations(pa *pegAnalysis, obls []*Obligation, pathOf
 			}
 			continue
 		}
-		sort.SliceStable(ws, func(i, j int) bool { return len(ws[i].Input) < len(ws[j].Input) })
+		sort.SliceStable(ws, func(i, j int) bool {
+			if len(ws[i].Input) != len(ws[j].Input) {
+				return len(ws[i].Input) < len(ws[j].Input)
+			}
+			return ws[i].Input < ws[j].Input
+		})
 		w := ws[0]
 		var sb strings.Builder
 		fmt.Fprintf(&sb, "input %q: Parse succeeds, matched %q\ncode compiled for the input:   %s\ncode compiled for the matched text alone: %s\nRun(input)   -> %s\nRun(matched) -> %s\n", w.Input, w.Matched, oneLine(w.CodeInput), oneLine(w.CodeMatched), w.RunInput, w.RunMatched)
